@@ -220,6 +220,20 @@ fn queries(sv: &SparseVector, vals: &[usize], w: usize, lv: &Level, rng: &mut Rn
         let k = if lv.all_args { 3 } else { 2 };
         qs.push(format!("QPred {} {} {}", i, k, ires(&catch(|| sv.predecessor(i).take(k).collect::<Vec<(usize, usize)>>()), |x| plist(x))));
         qs.push(format!("QSucc {} {} {}", i, k, ires(&catch(|| sv.successor(i).take(k).collect::<Vec<(usize, usize)>>()), |x| plist(x))));
+        if qs.len() % 3 == 0 {
+            // the same iterators from both ends
+            let pat: Vec<bool> = vec![true, false, true, true, false];
+            let r = catch(|| {
+                let mut it = sv.successor(i);
+                pat.iter().map(|back| if *back { it.next_back() } else { it.next() }).collect::<Vec<Option<(usize, usize)>>>()
+            });
+            qs.push(format!("QSuccD {} {} {}", i, blist(&pat), ires(&r, |x| olist_pairs(x))));
+            let r = catch(|| {
+                let mut it = sv.predecessor(i);
+                pat.iter().map(|back| if *back { it.next_back() } else { it.next() }).collect::<Vec<Option<(usize, usize)>>>()
+            });
+            qs.push(format!("QPredD {} {} {}", i, blist(&pat), ires(&r, |x| olist_pairs(x))));
+        }
     }
     for r in ranks.iter().cloned() {
         qs.push(format!("QSel {} {}", r, ires(&catch(|| sv.select(r)), |x| opt(x, |y| nu(*y)))));
